@@ -1,11 +1,21 @@
 """C06 — deserialization accepts exactly the JSON images of constructor-valid data.
 
-Proof obligations: Props/C06.v (model Ser/Deserialize.v, spec Ser/DocReading.v).
+Proof obligations: Props/C06.v (model Ser/Deserialize.v, spec Ser/DocReading.v, proofs Ser/DeserProofs.v and
+Ser/DeserExnProofs.v; the generated fingerprint Gen/DeserFlow.v of the exception handlers and of the dispatch chain
+of the deserializer is compared with what the model assumes in Ser/DeserFlowTie.v).
 Tie: correspondence of `deserialize` (model) with the real Deserializer on images of valid instances,
 every single-point corruption named in the property and non-object documents, for keep_undefined and
 ignore_invalid_additional_properties_in_deserialization in {True, False}.  Oracle on the implementation:
 Deserializer(cls).deserialize(d) against cls(**lift(d)) where `lift` is the documented reading of the
-document (a Python rendering of Ser/DocReading.v); the same spec is evaluated in Coq on the observation."""
+document (a Python rendering of Ser/DocReading.v); the same spec is evaluated in Coq on the observation.
+
+Streams:
+  documents   fragment classes of harness/sergen.py (as before)
+  wrappers    classes rich in AnyOf/OneOf/AllOf/NotField over overlapping alternatives (harness/c06gen.py, world W)
+  lattice     deterministic enumeration: wrapper kind x alternative whose trial fails with a non-TypeError/ValueError
+              x other alternative x order x position x document
+  ext         the same over field classes outside the Coq model (DecimalNumber, date/time fields, formatted
+              strings): oracle only, no Coq correspondence"""
 import copy
 import random
 
@@ -13,6 +23,7 @@ from harness import core
 from harness import coqemit as E
 from harness import fieldgen as G
 from harness import sergen as SG
+from harness import c06gen as G6
 from harness.props import c05 as C5
 
 
@@ -37,14 +48,9 @@ class flags:
 
 # ------------------------------------------------------------------ the documented reading, in Python
 
-_accept_cache = {}
-
-
 def option_accepts(g, w, ctx):
-    key = repr(g)
-    T = _accept_cache.get(key)
-    if T is None:
-        T = _accept_cache[key] = C5.single_field_class(g, ctx)
+    """the constructor of `class T: f = g` accepts f=w"""
+    T = G6.single_field_class(g, ctx)
     try:
         T(f=w)
         return True
@@ -57,10 +63,60 @@ def compact_on():
     return bool(TypedPyDefaults.compact_deserialization_default)
 
 
-def lift(f, j, ctx, ku, ii):
-    t = f["t"]
-    if t in ("num", "str", "bool", "enumlit", "any", "allof", "oneof", "not"):
+class Notes:
+    """what the reading of a document could not decide: several distinct readings at a multi-field wrapper"""
+
+    def __init__(self):
+        self.amb_accept = False     # OneOf / AllOf / NotField: the readings may differ in acceptance
+        self.amb_value = False      # AnyOf: every reading is accepted, the value depends on the reading
+
+    def merge(self, other):
+        self.amb_accept |= other.amb_accept
+        self.amb_value |= other.amb_value
+
+
+def canon(v):
+    from harness import structgen as S
+    return E.reify(v, S.struct_attrs)
+
+
+MAP_KEEPS_UNDEFINED = [False]   # counterfactual reading used to attribute a failure: keep_undefined=True below a Map
+EXT_AS_ITSELF = [False]      # second reading of a scalar document for an ext field: the string/number as itself
+
+
+def lift_ext(k, j):
+    """documented normal form of a scalar document for a field class outside the model: Decimal for DecimalNumber,
+    date / time / datetime for the date fields (parsed with the field's format); strings as themselves.  A
+    document that does not parse stands for itself (the constructor rejects it)."""
+    import datetime
+    import decimal
+    if not isinstance(j, (str, int, float)):
+        raise NotImage()
+    if EXT_AS_ITSELF[0]:
         return j
+    if k.startswith("Decimal"):
+        try:
+            return decimal.Decimal(j)
+        except (decimal.InvalidOperation, TypeError, ValueError):
+            return j
+    fmt = {"DateField": "%Y-%m-%d", "DateFieldDMY": "%d/%m/%Y", "TimeField": "%H:%M:%S",
+           "DateTime": "%m/%d/%y %H:%M:%S", "DateTimeISO": "%Y-%m-%dT%H:%M:%S"}.get(k)
+    if fmt and isinstance(j, str):
+        try:
+            p = datetime.datetime.strptime(j, fmt)
+        except ValueError:
+            return j
+        return p.date() if k.startswith("DateField") else p.time() if k == "TimeField" else p
+    return j
+
+
+def lift(f, j, ctx, ku, ii, notes=None):
+    notes = notes if notes is not None else Notes()
+    t = f["t"]
+    if t in ("num", "str", "bool", "enumlit", "any"):
+        return j
+    if t == "ext":
+        return lift_ext(f["k"], j)
     if t == "none":
         if j is None:
             return None
@@ -85,14 +141,14 @@ def lift(f, j, ctx, ku, ii):
         if t == "seqany" or (t == "set" and f.get("item") is None):
             r = list(j)
         elif t == "seqeach":
-            r = [lift(f["item"], x, ctx, ku, ii) for x in j]
+            r = [lift(f["item"], x, ctx, ku, ii, notes) for x in j]
         elif t == "set":
-            r = [lift(f["item"], x, ctx, ku, ii) for x in j]
+            r = [lift(f["item"], x, ctx, ku, ii, notes) for x in j]
         elif t == "tuple" and len(f["items"]) == 1:
-            r = [lift(f["items"][0], x, ctx, ku, ii) for x in j]
+            r = [lift(f["items"][0], x, ctx, ku, ii, notes) for x in j]
         else:
             items = f["items"]
-            r = [lift(items[i], x, ctx, ku, ii) if i < len(items) else x for i, x in enumerate(j)]
+            r = [lift(items[i], x, ctx, ku, ii, notes) if i < len(items) else x for i, x in enumerate(j)]
         if t == "set":
             if f.get("item") is not None and not all(option_accepts(f["item"], w, ctx) for w in r):
                 raise NotImage()
@@ -112,21 +168,45 @@ def lift(f, j, ctx, ku, ii):
         if type(j) is not dict:
             raise NotImage()
         try:
-            return {lift(f["kf"], k, ctx, ku, ii): lift(f["vf"], v, ctx, ku, ii) for k, v in j.items()}
+            ku2 = True if MAP_KEEPS_UNDEFINED[0] else ku
+            return {lift(f["kf"], k, ctx, ku2, ii, notes): lift(f["vf"], v, ctx, ku2, ii, notes) for k, v in j.items()}
         except TypeError:
             raise NotImage()
-    if t == "anyof":
+    if t in G6.WRAPPERS:
+        # The value of a multi-field wrapper is a value of one of its alternatives: the candidate readings of the
+        # document are its readings under each alternative g that g itself accepts (for NotField also the document
+        # as itself: a value that matches no alternative stands for itself).  One reading: the wrapper decides.
+        # Several DISTINCT readings: the documentation does not say which one is meant -- for AnyOf every one of
+        # them is accepted (the value is not judged), for the other wrappers acceptance is not judged either.
+        cands = [(j, Notes())] if t == "not" else []
         for g in f["fs"]:
+            n2 = Notes()
             try:
-                w = lift(g, j, ctx, ku, ii)
+                w = lift(g, j, ctx, ku, ii, n2)
             except NotImage:
                 continue
             if option_accepts(g, w, ctx):
+                cands.append((w, n2))
+        uniq = []
+        for w, n2 in cands:
+            cw = canon(w)
+            if all(cw != cu for cu, _, _ in uniq):
+                uniq.append((cw, w, n2))
+        if not uniq:
+            raise NotImage()
+        if len(uniq) >= 2:
+            if t == "anyof":
+                notes.amb_value = True
+            else:
+                notes.amb_accept = True
+        for _, w, n2 in uniq:
+            if t == "anyof" or option_accepts(f, w, ctx):
+                notes.merge(n2)
                 return w
         raise NotImage()
     if t == "ref":
         try:
-            return ctx.classes[f["cls"]](**doc_to_kwargs(ctx.ast(f["cls"]), j, ctx, ku, ii, compact_on()))
+            return ctx.classes[f["cls"]](**doc_to_kwargs(ctx.ast(f["cls"]), j, ctx, ku, ii, compact_on(), notes))
         except NotImage:
             raise
         except Exception:  # noqa  the constructor rejects the nested arguments
@@ -134,7 +214,7 @@ def lift(f, j, ctx, ku, ii):
     raise ValueError(f)
 
 
-def doc_to_kwargs(c, d, ctx, ku, ii, compact):
+def doc_to_kwargs(c, d, ctx, ku, ii, compact, notes=None):
     fields = {fd["name"]: fd["field"] for fd in ctx.all_fields(c["name"])}
     res = ctx.resolved(c["name"])
     if type(d) is not dict:
@@ -142,14 +222,14 @@ def doc_to_kwargs(c, d, ctx, ku, ii, compact):
             (name, f), = fields.items()
             if res["ignore_none"] and d is None:
                 return {name: None}
-            return {name: lift(f, d, ctx, ku, ii)}
+            return {name: lift(f, d, ctx, ku, ii, notes)}
         raise NotImage()
     kw = {}
     for k, v in d.items():
         if not isinstance(k, str):
             raise NotImage()
         if k in fields:
-            kw[k] = None if (res["ignore_none"] and v is None) else lift(fields[k], v, ctx, ku, ii)
+            kw[k] = None if (res["ignore_none"] and v is None) else lift(fields[k], v, ctx, ku, ii, notes)
         elif not ku:
             continue
         elif res["additional"]:
@@ -166,8 +246,52 @@ def doc_to_kwargs(c, d, ctx, ku, ii, compact):
 JSON_POOL = [5, "5", True, 2.5, [1], {"k": 1}, "zz", -1, 0, [], {}, ""]
 
 
+def local_corruptions(rnd, f, jv):
+    """single-point corruptions of sub-document jv standing where declaration f is expected: [(label, value)]"""
+    t = f["t"]
+    out = [("null", None)]
+    wrong = [x for x in JSON_POOL if type(x) is not type(jv)]
+    out.append(("wrong-json-type", rnd.choice(wrong)))
+    if t == "num" and isinstance(jv, (int, float)):
+        out.append(("numeric-string", str(jv)))
+        if f.get("min") is not None:
+            out.append(("out-of-bound", G.unreify(f["min"]) - 1))
+        if f.get("max") is not None:
+            out.append(("out-of-bound", G.unreify(f["max"]) + 1))
+        if f["s"] in ("Positive", "NonNegative"):
+            out.append(("out-of-bound", -3 if f["k"] != "Float" else -3.5))
+        if f["s"] in ("Negative", "NonPositive"):
+            out.append(("out-of-bound", 3 if f["k"] != "Float" else 3.5))
+    if t == "enumcls":
+        out.append(("unknown-enum-name", "NOPE"))
+        out.append(("unknown-enum-name", 12345))
+    if t == "ext":
+        out.append(("malformed-string", rnd.choice(G6.EXT_MALFORMED)))
+        out.append(("malformed-string", rnd.choice(G6.EXT_MALFORMED)))
+    if type(jv) is list:
+        if jv:
+            out.append(("short-array", jv[:-1]))
+            i = rnd.randrange(len(jv))
+            bad = [x for x in JSON_POOL if type(x) is not type(jv[i])]
+            out.append(("bad-element", jv[:i] + [rnd.choice(bad)] + jv[i + 1:]))
+        out.append(("long-array", jv + [rnd.choice(JSON_POOL)]))
+        out.append(("long-array", jv + jv[-1:]))
+    if type(jv) is dict and jv:
+        kk = rnd.choice(list(jv))
+        d2 = dict(jv)
+        d2[kk] = rnd.choice([x for x in JSON_POOL if type(x) is not type(jv[kk])])
+        out.append(("bad-member", d2))
+        d3 = dict(jv)
+        del d3[kk]
+        out.append(("missing-member", d3))
+        d4 = dict(jv)
+        d4["zz_extra"] = 1
+        out.append(("extra-member", d4))
+    return out
+
+
 def corruptions(rnd, c, doc, ctx):
-    """Single-point corruptions of the image `doc` of an instance of class AST c: [(label, field kind, doc')]."""
+    """Single-point corruptions of the image `doc` of an instance of class AST c: [(label, field kind, doc', inj)]."""
     out = []
     fields = {fd["name"]: fd["field"] for fd in c["fields"]}
     req = ctx.resolved(c["name"])["required"]
@@ -182,42 +306,8 @@ def corruptions(rnd, c, doc, ctx):
     for k, f in fields.items():
         t = f["t"]
         if k in doc:
-            jv = doc[k]
-            put("null", t, k, None)
-            wrong = [x for x in JSON_POOL if type(x) is not type(jv)]
-            put("wrong-json-type", t, k, rnd.choice(wrong))
-            if t == "num":
-                put("numeric-string", t, k, str(jv))
-                if f.get("min") is not None:
-                    put("out-of-bound", t, k, G.unreify(f["min"]) - 1)
-                if f.get("max") is not None:
-                    put("out-of-bound", t, k, G.unreify(f["max"]) + 1)
-                if f["s"] in ("Positive", "NonNegative"):
-                    put("out-of-bound", t, k, -3 if f["k"] != "Float" else -3.5)
-                if f["s"] in ("Negative", "NonPositive"):
-                    put("out-of-bound", t, k, 3 if f["k"] != "Float" else 3.5)
-            if t == "enumcls":
-                put("unknown-enum-name", t, k, "NOPE")
-                put("unknown-enum-name", t, k, 12345)
-            if type(jv) is list:
-                if jv:
-                    put("short-array", t, k, jv[:-1])
-                    i = rnd.randrange(len(jv))
-                    bad = [x for x in JSON_POOL if type(x) is not type(jv[i])]
-                    put("bad-element", t, k, jv[:i] + [rnd.choice(bad)] + jv[i + 1:])
-                put("long-array", t, k, jv + [rnd.choice(JSON_POOL)])
-                put("long-array", t, k, jv + jv[-1:])
-            if type(jv) is dict and jv:
-                kk = rnd.choice(list(jv))
-                d2 = dict(jv)
-                d2[kk] = rnd.choice([x for x in JSON_POOL if type(x) is not type(jv[kk])])
-                put("bad-member", t, k, d2)
-                d3 = dict(jv)
-                del d3[kk]
-                put("missing-member", t, k, d3)
-                d4 = dict(jv)
-                d4["zz_extra"] = 1
-                put("extra-member", t, k, d4)
+            for label, v in local_corruptions(rnd, f, doc[k]):
+                put(label, t, k, v)
             if k in req:
                 d = copy.deepcopy(doc)
                 del d[k]
@@ -230,20 +320,133 @@ def corruptions(rnd, c, doc, ctx):
     return out
 
 
-def empty_container_for_none(f, v):
-    """an empty list/dict offered where a NoneField option can be reached (possibly as an element)"""
-    def has_empty(x):
-        if x == [] or x == {}:
-            return True
-        if type(x) is list:
-            return any(has_empty(y) for y in x)
-        if type(x) is dict:
-            return any(has_empty(y) for y in x.values())
-        return False
-    return "none" in SG.field_kinds(f) and has_empty(v)
+def deep_corruptions(rnd, c, doc, ctx, n):
+    """n single-point corruptions at aligned positions strictly inside a field's value"""
+    if type(doc) is not dict:
+        return []
+    fields = {fd["name"]: fd["field"] for fd in c["fields"]}
+    cand = []
+    for k, f in fields.items():
+        if doc.get(k) is not None:
+            cand += [s for s in G6.sites(f, doc[k], ctx, (k,)) if len(s[0]) > 1]
+    rnd.shuffle(cand)
+    out = []
+    for path, g, x in cand[:n]:
+        label, v = rnd.choice(local_corruptions(rnd, g, x))
+        d = G6.put_at(doc, path, v)
+        out.append(("deep/" + label, g["t"], d, (fields[path[0]], d[path[0]])))
+    return out
 
 
 TOP_LEVEL = [5, "s", [1, 2], None, True, 2.5, [], ""]
+
+
+# ------------------------------------------------------------------ which open finding a spec failure belongs to
+
+def strip_nulls(c, d, ctx):
+    """the document without the keys of declared fields that hold null, at the top and in every nested object
+    that stands where a class reference is expected (directly, as an element, or as a wrapper alternative);
+    second component: the kinds of the fields whose null was removed"""
+    top = {"t": "ref", "cls": c["name"]}
+    dels = []
+    for path, g, x in G6.sites(top, d, ctx):
+        if g["t"] == "ref" and type(x) is dict:
+            try:
+                fields = {fd["name"]: fd["field"] for fd in ctx.all_fields(g["cls"])}
+            except KeyError:
+                continue
+            for k, v in x.items():
+                if v is None and k in fields and (path, k) not in [(p, kk) for p, kk, _ in dels]:
+                    dels.append((path, k, fields[k]["t"]))
+    if not dels:
+        return d, []
+    out = copy.deepcopy(d)
+    for path, k, _ in dels:
+        cur = out
+        for p in path:
+            cur = cur[p]
+        cur.pop(k, None)
+    return out, [t for _, _, t in dels]
+
+
+def attribute(case, ctx, v):
+    """input-shape part of the key of an agreement failure (over-accepts / over-rejects / different-instance)
+    when the failing document has the shape of an OPEN finding; None otherwise"""
+    c, doc = case["c"], case["doc"]
+    # F17b: an explicit null for a declared field is treated as an absent key.  Attributed only if the same
+    # document without those keys satisfies the property and the implementation treats both alike.
+    stripped, kinds = strip_nulls(c, doc, ctx)
+    if kinds and v in ("over-accepts", "over-rejects"):
+        r2 = run_real(ctx.classes[c["name"]], stripped, case["ku"], case["ii"], case["compact"])
+        s2 = run_spec(c, stripped, ctx, case["ku"], case["ii"], case["compact"])
+        if verdict(r2, s2) is None and r2[0] == case["real"][0]:
+            return "null:" + kinds[0]
+    if not case["ku"]:
+        # deserialize_map does not pass keep_undefined on: below a Map the default (True) applies
+        MAP_KEEPS_UNDEFINED[0] = True
+        try:
+            if verdict(case["real"], run_spec(c, doc, ctx, case["ku"], case["ii"], case["compact"])) is None:
+                return "keep_undefined-not-passed-below-map"
+        finally:
+            MAP_KEEPS_UNDEFINED[0] = False
+    top = {"t": "ref", "cls": c["name"]}
+    all_sites = list(G6.sites(top, doc, ctx))
+    for _, g, x in all_sites:
+        # F26: the generic TypedField branch builds NoneType() from [] / {} where a NoneField is expected
+        if g["t"] == "none" and (x == [] or x == {}) and type(x) in (list, dict):
+            return "nonefield-accepts-empty-container"
+        # same branch, TypedField over str: str(*list) / str(**dict)
+        if g["t"] == "ext" and g["k"] == "TimeString" and type(x) in (list, dict):
+            return "typedfield-built-from-json-container"
+    for _, g, x in all_sites:
+        # F9 / F20 behind a multi-field wrapper: a homogeneous Tuple[T] deserializes element 0 only -- the
+        # empty array raises IndexError (caught by the wrapper: "does not match"), a longer one keeps its
+        # tail as it is
+        if g["t"] == "tuple" and len(g["items"]) == 1 and type(x) is list:
+            if not x:
+                return "tuple-homogeneous:empty-under-wrapper"
+            if len(x) >= 2:
+                return "tuple-homogeneous:tail-not-deserialized-under-wrapper"
+    from typedpy import deserialize_single_field
+    for _, g, x in all_sites:
+        # a multi-field wrapper takes the value of an alternative that DESERIALIZES (pre-validation only) although
+        # the alternative does not accept that value
+        if g["t"] in G6.WRAPPERS:
+            # the value the wrapper hands on: AnyOf -- that of the FIRST alternative that deserializes; the other
+            # wrappers -- that of the LAST one (their own errors are raised inside the try and count as failures)
+            taken = None
+            for gi in g["fs"]:
+                try:
+                    fobj = G6.single_field_class(gi, ctx).get_all_fields_by_name()["f"]
+                    with flags(case["ii"], case["compact"]):
+                        dv = deserialize_single_field(fobj, copy.deepcopy(x), keep_undefined=case["ku"])
+                except Exception:  # noqa
+                    continue
+                taken = (gi, dv)
+                if g["t"] == "anyof":
+                    break
+            if taken is not None and not option_accepts(taken[0], taken[1], ctx):
+                return "wrapper-takes-alternative-that-deserializes-but-does-not-validate"
+        if g["t"] == "allof" and v == "over-rejects":
+            # AllOf makes EVERY alternative deserialize the document, although the JSON form of a value that all of
+            # them accept is written by one of them (formatted strings of different formats)
+            whole = []
+            for gk in g["fs"]:
+                try:
+                    w = lift(gk, x, ctx, case["ku"], case["ii"])
+                except NotImage:
+                    continue
+                if option_accepts(g, w, ctx):
+                    whole.append(w)
+            if whole:
+                for gi in g["fs"]:
+                    try:
+                        fobj = G6.single_field_class(gi, ctx).get_all_fields_by_name()["f"]
+                        with flags(case["ii"], case["compact"]):
+                            deserialize_single_field(fobj, copy.deepcopy(x), keep_undefined=case["ku"])
+                    except Exception:  # noqa
+                        return "allof-alternative-cannot-read-json-form-of-a-value-it-accepts"
+    return None
 
 
 # ------------------------------------------------------------------ running
@@ -259,15 +462,17 @@ def run_real(cls, d, ku, ii, compact):
 
 
 def run_spec(c, d, ctx, ku, ii, compact):
+    """("ok", instance, notes) | ("raise", class name, message, notes)"""
+    notes = Notes()
     with flags(ii, compact):
         try:
-            kw = doc_to_kwargs(c, copy.deepcopy(d), ctx, ku, ii, compact)
+            kw = doc_to_kwargs(c, copy.deepcopy(d), ctx, ku, ii, compact, notes)
         except NotImage:
-            return ("raise", "TypeError", "not a documented image")
+            return ("raise", "TypeError", "not a documented image", notes)
         try:
-            return ("ok", ctx.classes[c["name"]](**kw))
+            return ("ok", ctx.classes[c["name"]](**kw), notes)
         except Exception as ex:  # noqa
-            return ("raise", E.exn_name(ex), str(ex)[:160])
+            return ("raise", E.exn_name(ex), str(ex)[:160], notes)
 
 
 TEVE = ("TypeError", "ValueError", "InvalidStructureErr")
@@ -277,7 +482,12 @@ def verdict(real, spec):
     """None if the property holds on this case, else the kind of failure."""
     if real[0] == "raise" and real[1] not in TEVE:
         return "non-te-ve:" + real[1]
+    notes = spec[-1]
+    if notes.amb_accept:
+        return None             # several distinct readings that may differ in acceptance: only the error class is judged
     if real[0] == "ok" and spec[0] == "ok":
+        if notes.amb_value:
+            return None
         try:
             return None if real[1] == spec[1] else "different-instance"
         except Exception:  # noqa
@@ -288,27 +498,32 @@ def verdict(real, spec):
 
 
 def python_src(c, d, ctx, ku, ii, compact):
-    return (SG.IMPORTS + "from typedpy import Deserializer\nfrom typedpy.structures import TypedPyDefaults\n" + ctx.source() +
+    imports = G6.IMPORTS if isinstance(ctx, G6.XContext) else SG.IMPORTS
+    source = "".join(G6.class_src(ctx.ast(n)) + "\n" for n in class_closure(ctx, [c["name"]]))
+    return (imports + "from typedpy import Deserializer\nfrom typedpy.structures import TypedPyDefaults\n" + source +
             "\nTypedPyDefaults.ignore_invalid_additional_properties_in_deserialization = %r\n"
             "TypedPyDefaults.compact_deserialization_default = %r\n"
             "print(Deserializer(%s).deserialize(%r, keep_undefined=%r))\n" % (ii, compact, c["name"], d, ku))
 
 
-def run(rep, tier):
-    rnd = random.Random(core.seed() * 1000003 + 6)
-    proofs_ok, model_ok = core.standard_proof_obligations(rep, "C06", ["theories/Check/C05chk.vo"])
-    n_classes = 40 if tier == "quick" else 160
-    ctx, pools = SG.build_world(rnd, n_classes, max_depth=2 if tier == "quick" else 3)
+def compact_eligible(c, ctx):
+    res = ctx.resolved(c["name"])
+    return len(c["fields"]) == 1 and res["required"] == [c["fields"][0]["name"]] and not res["additional"]
+
+
+def image_cases(rnd, ctx, pools, tier, images_per_class=4, n_cor=10, n_deep=0):
+    """cases of one world: images of valid instances, single-point corruptions, non-object documents"""
     from typedpy import Serializer
-    cases = []      # dict(c, doc, label, kind, ku, ii, compact, real, spec, inst)
+    cases = []
     for c in ctx.asts:
         cls = ctx.classes[c["name"]]
-        res = ctx.resolved(c["name"])
-        compact_ok = len(c["fields"]) == 1 and res["required"] == [c["fields"][0]["name"]] and not res["additional"]
-        for kw, x in pools.get(c["name"], [])[:4]:
+        compact_ok = compact_eligible(c, ctx)
+        for kw, x in pools.get(c["name"], [])[:images_per_class]:
             try:
                 doc = Serializer(x).serialize()
             except Exception:  # noqa   a C05 matter
+                continue
+            if not SG.only_json_types(doc):      # not a JSON-like document: a C05 matter
                 continue
             docs = [("image", "class", doc, None)]
             # corrupt only images on which the property holds (a failing image is reported as such)
@@ -317,7 +532,9 @@ def run(rep, tier):
             if image_ok:
                 cor = corruptions(rnd, c, doc, ctx)
                 rnd.shuffle(cor)
-                docs += cor[:10 if tier == "quick" else 40]
+                docs += cor[:n_cor]
+                if n_deep:
+                    docs += deep_corruptions(rnd, c, doc, ctx, n_deep)
             docs += [("non-object-document", "class", rnd.choice(TOP_LEVEL), None)]
             for label, kind, d, inj in docs:
                 combos = [(ku, ii) for ku in (True, False) for ii in (True, False)]
@@ -329,107 +546,279 @@ def run(rep, tier):
                         inj = (c["fields"][0]["field"], d)
                     cases.append({"c": c, "doc": d, "label": label, "kind": kind, "ku": ku, "ii": ii,
                                   "compact": compact, "inst": x if label == "image" else None, "inj": inj})
+    return cases
+
+
+def judge(rep, stream, ctx, cases, model_world=True):
+    """run the implementation and the oracle on every case; report spec failures as findings"""
+    frag = {}
     for case in cases:
         c = case["c"]
+        if model_world:
+            # is the case inside the hypothesis of theorem C06_error_class (env_posfree of the classes it reaches)?
+            if c["name"] not in frag:
+                frag[c["name"]] = all(G6.posfree(fd["field"]) for n in class_closure(ctx, [c["name"]])
+                                      for fd in ctx.ast(n)["fields"])
+            rep.stat(stream, "C06_error_class-hypotheses:" + ("hold" if frag[c["name"]] else "positional-outside-wrapper"))
+            # ... and inside those of C06_agree_scalar (scalar class; object document, string keys, no null member)?
+            sc = all(fd["field"]["t"] in ("num", "str", "bool", "enumlit", "any") for fd in ctx.all_fields(c["name"]))
+            d = case["doc"]
+            if sc and type(d) is dict and all(isinstance(k, str) and x is not None for k, x in d.items()):
+                rep.stat(stream, "C06_agree_scalar-hypotheses:hold")
         case["real"] = run_real(ctx.classes[c["name"]], case["doc"], case["ku"], case["ii"], case["compact"])
         case["spec"] = run_spec(c, case["doc"], ctx, case["ku"], case["ii"], case["compact"])
         v = verdict(case["real"], case["spec"])
+        if v in ("different-instance", "over-accepts") and not model_world:
+            # a formatted string / number for a field class outside the model also stands for itself
+            EXT_AS_ITSELF[0] = True
+            try:
+                if verdict(case["real"], run_spec(c, case["doc"], ctx, case["ku"], case["ii"], case["compact"])) is None:
+                    v = None
+            finally:
+                EXT_AS_ITSELF[0] = False
         case["verdict"] = v
-        rep.count("documents", 1, (c["name"], case["label"], case["kind"], case["ku"], case["ii"], case["real"][0]))
-        rep.stat("documents", "label:" + case["label"])
-        rep.stat("documents", "outcome:" + (case["real"][0] if case["real"][0] == "ok" else case["real"][1]))
-        rep.stat("documents", "flags:ku=%s,ii=%s" % (case["ku"], case["ii"]))
-        if v is not None:
-            shape = "%s:%s" % (case["label"], case["kind"])
-            if v == "non-te-ve:IndexError" and case["inj"] is not None and \
-                    SG.field_kinds(case["inj"][0]) & {"tuple", "seqpos"}:
-                shape = "document-shorter-than-positional-items"
-            if v == "over-accepts" and case["inj"] is not None and empty_container_for_none(*case["inj"]):
-                shape = "nonefield-accepts-empty-container"
-            if case["label"] == "image" and case["inst"] is not None:
-                o = C5.observe(case["inst"], ctx.classes[c["name"]], False)
-                if o["stage"] is not None:
-                    key5, _, _ = C5.diagnose(c, [(k, SG.reify_o(x)) for k, x in case["inst"].__dict__.items()
-                                                 if k not in ("_instantiated", "_none_fields", "_trust_supplied_values")],
-                                             case["inst"], o, ctx)
-                    shape = "image/" + key5.split("/", 2)[2]
-            rep.finding("C06/%s/%s" % (v, shape),
-                        "Deserializer(%s).deserialize(%r, keep_undefined=%r) [ignore_invalid=%r, compact=%r] -> %s; the "
-                        "constructor on the documented reading -> %s" % (
-                            c["name"], case["doc"], case["ku"], case["ii"], case["compact"],
-                            case["real"][:2] if case["real"][0] == "raise" else "accepted " + repr(case["real"][1]),
-                            case["spec"][:2] if case["spec"][0] == "raise" else "accepted " + repr(case["spec"][1])),
-                        {"python": python_src(c, case["doc"], ctx, case["ku"], case["ii"], case["compact"]),
-                         "label": case["label"], "verdict": v})
+        rep.count(stream, 1, (c["name"], case["label"], case["kind"], case["ku"], case["ii"], case["real"][0]))
+        rep.stat(stream, "label:" + case["label"])
+        rep.stat(stream, "outcome:" + (case["real"][0] if case["real"][0] == "ok" else case["real"][1]))
+        rep.stat(stream, "flags:ku=%s,ii=%s" % (case["ku"], case["ii"]))
+        # how often a document makes the TRIAL of a wrapper alternative fail with a non-TypeError/ValueError
+        outside = G6.doc_escapes(c, case["doc"], ctx)
+        inside = G6.doc_escapes(c, case["doc"], ctx, through_wrappers=True) - outside
+        case["hard_trial"] = bool(inside)
+        if inside:
+            rep.stat(stream, "hard-trial-inside-wrapper:" + "+".join(sorted(inside)))
+        nt = case["spec"][-1]
+        if nt.amb_accept or nt.amb_value:
+            rep.stat(stream, "ambiguous-reading:" + ("acceptance" if nt.amb_accept else "value"))
+        if v is None:
+            continue
+        shape = "%s:%s" % (case["label"].split("/")[0] if case["label"].startswith("lattice/") else case["label"], case["kind"])
+        attr = None
+        if v.startswith("non-te-ve:"):
+            if v.split(":", 1)[1] in outside:
+                # an exception an OPEN finding lets escape, at a call site outside every multi-field wrapper
+                shape = G6.ESCAPE_SHAPE[v.split(":", 1)[1]]
+            attr = True
+        else:
+            attr = attribute(case, ctx, v)
+            shape = attr or shape
+        if not attr and model_world and case["label"] == "image" and case["inst"] is not None:
+            o = C5.observe(case["inst"], ctx.classes[c["name"]], False)
+            if o["stage"] is not None:
+                key5, _, _ = C5.diagnose(c, [(k, SG.reify_o(x)) for k, x in case["inst"].__dict__.items()
+                                             if k not in ("_instantiated", "_none_fields", "_trust_supplied_values")],
+                                         case["inst"], o, ctx)
+                shape = "image/" + key5.split("/", 2)[2]
+        case["shape"] = shape
+        rep.finding("C06/%s/%s" % (v, shape),
+                    "Deserializer(%s).deserialize(%r, keep_undefined=%r) [ignore_invalid=%r, compact=%r] -> %s; the "
+                    "constructor on the documented reading -> %s" % (
+                        c["name"], case["doc"], case["ku"], case["ii"], case["compact"],
+                        case["real"][:2] if case["real"][0] == "raise" else "accepted " + repr(case["real"][1]),
+                        case["spec"][:2] if case["spec"][0] == "raise" else "accepted " + repr(case["spec"][1])),
+                    {"python": python_src(c, case["doc"], ctx, case["ku"], case["ii"], case["compact"]),
+                     "label": case["label"], "verdict": v, "stream": stream})
     nfail = sum(1 for k in cases if k["verdict"] is not None)
     acc = sum(1 for k in cases if k["real"][0] == "ok")
-    rep.obligation("spec-on-observed:constructor-on-documented-reading", True,
+    rep.obligation("spec-on-observed:constructor-on-documented-reading(%s)" % stream, True,
                    "%d documents (%d accepted), %d spec failures (each reported as a finding)" % (len(cases), acc, nfail))
     if cases and not (0.1 <= acc / len(cases) <= 0.9):
-        rep.broken("generator:accept-rate", "accept rate %.2f outside [0.1, 0.9]: inconclusive" % (acc / len(cases)))
+        rep.broken("generator:accept-rate(%s)" % stream, "accept rate %.2f outside [0.1, 0.9]: inconclusive" % (acc / len(cases)))
     for i in (0, len(cases) // 2, len(cases) - 1):
         if cases:
             k = cases[i]
-            rep.sample({"class": SG.class_src(k["c"]), "doc": repr(k["doc"])[:200], "label": k["label"],
-                        "real": repr(k["real"][:2])[:200]})
+            rep.sample({"stream": stream, "class": G6.class_src(k["c"]), "doc": repr(k["doc"])[:200], "label": k["label"],
+                        "real": repr(k["real"][:2])[:200]}, limit=12)
+    return cases
+
+
+# ------------------------------------------------------------------ the trial-failure lattice
+
+def lattice_cases(rnd, tier, ext):
+    """deterministic enumeration (the PRNG only rotates which positions a wrapper is placed at in the quick tier)"""
+    hard = G6.HARD_EXT if ext else G6.HARD_MODEL
+    docs = G6.LATTICE_DOCS_EXT if ext else G6.LATTICE_DOCS
+    ctx = G6.XContext() if ext else SG.SerContext([])
+    cases = []
+    wrappers = G6.lattice_wrappers(hard)
+    npos = len(G6.POSITIONS)
+    for wi, (wname, w) in enumerate(wrappers):
+        if tier == "quick":
+            positions = ["direct", G6.POSITIONS[1 + (wi + core.seed()) % (npos - 1)]]
+        else:
+            positions = list(G6.POSITIONS)
+        for pos in positions:
+            name = "L%s%d_%s" % ("x" if ext else "", wi, pos.replace("-", "_"))
+            try:
+                asts, mk, compact = G6.place(pos, w, name, name + "_inner")
+                for a in asts:
+                    ctx.add(a)
+            except Exception:  # noqa   declaration rejected by typedpy
+                continue
+            c = asts[-1]
+            for d in docs:
+                for ku, ii in ((True, True), (False, False)) if pos == "direct" else ((True, True),):
+                    doc = mk(copy.deepcopy(d))
+                    cases.append({"c": c, "doc": doc, "label": "lattice/" + pos, "kind": w["t"], "wrapper": wname,
+                                  "ku": ku, "ii": ii, "compact": compact, "inst": None, "inj": (w, d)})
+    return ctx, cases
+
+
+# ------------------------------------------------------------------ the check
+
+def run(rep, tier):
+    rnd = random.Random(core.seed() * 1000003 + 6)
+    proofs_ok, model_ok = core.standard_proof_obligations(rep, "C06", ["theories/Check/C06chk.vo"])
+    quick = tier == "quick"
+    # 1. fragment classes of sergen (as before)
+    ctx, pools = SG.build_world(rnd, 40 if quick else 160, max_depth=2 if quick else 3)
+    cases = judge(rep, "documents", ctx, image_cases(rnd, ctx, pools, tier, n_cor=10 if quick else 40))
+    worlds = [("documents", ctx, cases)]
+    # 2. wrapper-rich classes of the model fragment
+    rnd2 = random.Random(core.seed() * 1000003 + 606)
+    wctx, wpools = G6.build_wworld(rnd2, 70 if quick else 260, max_depth=2 if quick else 3)
+    wcases = judge(rep, "wrappers", wctx, image_cases(rnd2, wctx, wpools, tier, n_cor=8 if quick else 30,
+                                                       n_deep=4 if quick else 12))
+    worlds.append(("wrappers", wctx, wcases))
+    # 3. the trial-failure lattice (model part)
+    rnd3 = random.Random(core.seed() * 1000003 + 607)
+    lctx, lcases = lattice_cases(rnd3, tier, ext=False)
+    judge(rep, "lattice", lctx, lcases)
+    worlds.append(("lattice", lctx, lcases))
+    # 4. fields outside the Coq model: random world + lattice, oracle only
+    rnd4 = random.Random(core.seed() * 1000003 + 608)
+    xctx, xpools = G6.build_xworld(rnd4, 60 if quick else 240, max_depth=2 if quick else 3)
+    xcases = judge(rep, "ext", xctx, image_cases(rnd4, xctx, xpools, tier, n_cor=8 if quick else 30,
+                                                 n_deep=4 if quick else 12), model_world=False)
+    lxctx, lxcases = lattice_cases(rnd4, tier, ext=True)
+    judge(rep, "ext-lattice", lxctx, lxcases, model_world=False)
+    # the class of inputs the wrapper clause is about must actually be exercised
+    for stream, cs, floor in (("wrappers", wcases, 20 if quick else 80), ("lattice", lcases, 200),
+                              ("ext", xcases, 10 if quick else 40), ("ext-lattice", lxcases, 100)):
+        n = sum(1 for k in cs if k["hard_trial"])
+        rep.obligation("generator:hard-trial-inside-wrapper(%s)" % stream, n >= floor,
+                       "%d documents make the trial of a wrapper alternative fail with a non-TypeError/ValueError "
+                       "(floor %d)" % (n, floor))
+        if n < floor:
+            rep.broken("generator:hard-trial-inside-wrapper(%s)" % stream,
+                       "only %d documents exercise a failing trial inside a multi-field wrapper (floor %d): inconclusive" % (n, floor))
     if model_ok:
-        try:
-            correspondence(rep, ctx, cases)
-        except RuntimeError as ex:
-            rep.broken("correspondence:coq-eval", str(ex))
+        for stream, wc, cs in worlds:
+            try:
+                correspondence(rep, stream, wc, cs)
+            except RuntimeError as ex:
+                rep.broken("correspondence:coq-eval(%s)" % stream, str(ex))
     if not proofs_ok:
         from harness.props.c17 import broken_build
         broken_build(rep)
     rep.assumptions += [
         "re.match is an oracle (Section variable), instantiated per run by a table filled from the real re module",
         "keep_undefined ranges over {True, False} as in the property's quantifier (None is exercised by C05)",
-        "C06_agree is proved for the fragment stated in Props/C06.v; elsewhere the two executable models are "
-        "compared with each other and with the implementation on every generated document",
+        "the agreement clause is not proved: the two executable models (Ser/Deserialize.v, Ser/DocReading.v) are "
+        "compared with each other and with the implementation on every generated document of the model fragment",
+        "field classes outside Fields/FieldAst.v (DecimalNumber, date/time fields, formatted strings) are judged by the "
+        "constructor-on-documented-reading oracle only (streams ext, ext-lattice)",
     ]
     return rep.finish(
         rule="documents = real serialized images of valid instances of generated fragment classes, up to 10 single-point "
              "corruptions each (null, wrong JSON type, numeric string, out-of-bound, unknown enum name, short/long array, "
-             "bad element/member, missing required key, extra key/member) and non-object documents; keep_undefined x "
-             "ignore_invalid in {T,F}^2 for images and extra keys; distinct = (class, label, field kind, flags, outcome)")
+             "bad element/member, missing required key, extra key/member, malformed formatted string; also at positions "
+             "inside a field's value) and non-object documents; keep_undefined x ignore_invalid in {T,F}^2 for images and "
+             "extra keys; wrapper-rich classes (AnyOf/OneOf/AllOf/NotField over overlapping alternatives) and a "
+             "deterministic lattice wrapper kind x hard alternative x soft alternative x order x position x document; "
+             "distinct = (class, label, field kind, flags, outcome)")
+
+
+HEADER = """From Coq Require Import ZArith NArith String List Bool. Import ListNotations.
+From TP Require Import Check.C06chk.
+Local Open Scope string_scope.
+"""
+
+
+FNS = ["dmismatch", "dunmodelled", "dspec_fail6", "dspec_declines6", "dmodels_differ6", "dbadexn", "dambiguous"]
+
+
+def class_closure(ctx, names):
+    """the classes named, and every class their declarations refer to, in the order of the environment"""
+    need, todo = set(), list(names)
+    while todo:
+        n = todo.pop()
+        if n in need:
+            continue
+        need.add(n)
+        for fd in ctx.ast(n)["fields"]:
+            todo += [r for r in G6.refs_in(fd["field"]) if r not in need]
+        todo += ctx.ancestors(n)
+    return [c["name"] for c in ctx.asts if c["name"] in need]
+
+
+def coq_eval(cases, items, ctx, tag, per=250):
+    """items: emitted `dcase` records (one per case); every shard carries only the classes its cases need and
+    evaluates `dsummary` (Check/C06chk.v) once per case.  Returns {fn: [indices]} for the functions FNS."""
+    shards = []
+    for s in range(0, len(items), per):
+        names = class_closure(ctx, {k["c"]["name"] for k in cases[s:s + per]})
+        env = "Definition env0 : env := %s." % E.lst(["\n  " + ctx.emit_classdef(n) for n in names])
+        body = env + "\n" + ctx.coq_enums() + "\n"
+        body += "Definition cases : list dcase := %s.\n" % E.lst(["\n " + i for i in items[s:s + per]])
+        body += "Eval vm_compute in (map dsummary cases).\n"
+        shards.append(body)
+    res = core.eval_cases(shards, tag, HEADER)
+    out = {fn: [] for fn in FNS}
+    for si, (rc, so, se) in enumerate(res):
+        vals = core.parse_eval(so)
+        n = len(items[si * per:(si + 1) * per])
+        codes = core.parse_nat_list(vals[0]) if (rc == 0 and len(vals) == 1) else None
+        if codes is None or len(codes) != n:
+            raise RuntimeError("case shard %d failed to evaluate: %s" % (si, (so + se)[-2000:]))
+        for i, code in enumerate(codes):
+            for bit, fn in enumerate(FNS):
+                if code >> bit & 1:
+                    out[fn].append(si * per + i)
+    return out
 
 
 def reify_obs(r):
     return ("ok", SG.reify_o(r[1])) if r[0] == "ok" else ("raise", r[1])
 
 
-def correspondence(rep, ctx, cases):
+def correspondence(rep, stream, ctx, cases):
+    if not cases:
+        return
     docs = [SG.reify_o(k["doc"]) for k in cases]
     obs = [reify_obs(k["real"]) for k in cases]
     tbl = C5.tables_for(ctx, docs + [o[1] for o in obs if o[0] == "ok"])
     items = [C5.emit_dcase(k["c"]["name"], d, o, tbl, compact=k["compact"], ignore_invalid=k["ii"], ku=k["ku"])
              for k, d, o in zip(cases, docs, obs)]
-    fns = ["dmismatch", "dunmodelled", "dspec_fail", "dspec_declines", "dmodels_differ", "dbadexn"]
-    r = C5.coq_eval(items, "dcase", fns, ctx, "c06")
-    rep.count("correspondence:deser", len(items))
-    s = rep.cov["streams"]["correspondence:deser"]
+    r = coq_eval(cases, items, ctx, "c06" + stream[:4])
+    sname = "correspondence:deser" if stream == "documents" else "correspondence:deser(%s)" % stream
+    rep.count(sname, len(items))
+    s = rep.cov["streams"][sname]
     s["declined_by_model"] = len(r["dunmodelled"])
-    s["declined_by_spec"] = len(r["dspec_declines"])
-    s["model_vs_spec_differ"] = len(r["dmodels_differ"])
-    rep.obligation("correspondence:deserialize", not r["dmismatch"], "%d documents, %d mismatches, %d outside the model" % (
+    s["declined_by_spec"] = len(r["dspec_declines6"])
+    s["ambiguous_reading"] = len(r["dambiguous"])
+    s["model_vs_spec_differ"] = len(r["dmodels_differ6"])
+    oname = "correspondence:deserialize" if stream == "documents" else "correspondence:deserialize(%s)" % stream
+    rep.obligation(oname, not r["dmismatch"], "%d documents, %d mismatches, %d outside the model" % (
         len(items), len(r["dmismatch"]), len(r["dunmodelled"])))
     # the Coq evaluation of the spec on the observation must agree with the Python-side oracle
     py_fail = {i for i, k in enumerate(cases) if k["verdict"] is not None}
-    coq_fail = set(r["dspec_fail"])
-    declined = set(r["dspec_declines"])
+    coq_fail = set(r["dspec_fail6"])
+    declined = set(r["dspec_declines6"])
     diff = (py_fail ^ coq_fail) - declined
-    rep.obligation("spec-on-observed:doc_to_kwargs(coq)=python-oracle", not diff,
-                   "%d spec failures (Coq) vs %d (Python), %d disagreements" % (len(coq_fail), len(py_fail), len(diff)))
+    rep.obligation("spec-on-observed:doc_to_kwargs(coq)=python-oracle" + ("" if stream == "documents" else "(%s)" % stream),
+                   not diff, "%d spec failures (Coq) vs %d (Python), %d disagreements" % (len(coq_fail), len(py_fail), len(diff)))
     if diff:
         i = sorted(diff)[0]
         k = cases[i]
-        rep.broken("spec-on-observed:doc_to_kwargs", "the Coq spec (Ser/DocReading.v) and its Python rendering disagree on "
-                   "%d documents" % len(diff),
+        rep.broken("spec-on-observed:doc_to_kwargs(%s)" % stream, "the Coq spec (Ser/DocReading.v) and its Python rendering "
+                   "disagree on %d documents" % len(diff),
                    {"python": python_src(k["c"], k["doc"], ctx, k["ku"], k["ii"], k["compact"]),
                     "python_oracle": repr(k["verdict"]), "coq_spec_fail": i in coq_fail})
     if r["dmismatch"] and not any(not v["no_input"] for v in rep.violations):
         i = r["dmismatch"][0]
         k = cases[i]
-        rep.broken("correspondence:deserialize", "model (Ser/Deserialize.v) and typedpy differ on %d documents; the spec "
+        rep.broken(oname, "model (Ser/Deserialize.v) and typedpy differ on %d documents; the spec "
                    "holds on every explored document" % len(r["dmismatch"]),
                    {"python": python_src(k["c"], k["doc"], ctx, k["ku"], k["ii"], k["compact"]), "observed": repr(k["real"][:2])})
 
